@@ -189,6 +189,11 @@ def cumRaw (op : Int → Int → Int) (rows : List (Nat × Option Int)) : List (
 /-- `cum_last` (`M.last` of the cumulative column per group): the last non-NA cumulative value of every group -/
 def cumLast (op : Int → Int → Int) (rows : List (Nat × Option Int)) : St := cumSt op stEmpty rows
 
+/-- `M.last` of the cumulative column, literally: the last non-NA cumulative cell among the rows of group `k`
+    (`cumLast` is this, `Lemmas/GroupbyScan.cumLast_is_last`) -/
+def cumLastLit (op : Int → Int → Int) (st : St) (rows : List (Nat × Option Int)) (k : Nat) : Option Int :=
+  ((rows.zip (cumGo op st rows)).filterMap fun rc => if rc.1.1 == k then rc.2 else none).getLast?
+
 /-- `_cum_agg_filled(a, b, op, initial)`: union of the groups, absent / NA = initial -/
 def cumFilled (op : Int → Int → Int) (e : Int) (a b : St) : St := fun k =>
   match a k, b k with
